@@ -158,9 +158,12 @@ def linked_check(repo, workdir):
     if pr.returncode == 0:
         res = {'status': 'holds', 'closed_under_global_context': closed,
                'theorems': ['regenerated_decoder_is_model : forall o b, run (genL_msg_read o) b = m_decode o b',
-                            'regenerated_avps_is_model', 'G_C01_total', 'G_C02_no_contract_violation', 'G_C05_refines_spec'],
-               'meaning': 'the decoder regenerated from the current source text, with every callee regenerated too, equals the Model '
-                          'decoder on every input; C01/C02/C05 are re-proved of the regenerated program'}
+                            'regenerated_avps_is_model', 'G_C01_total', 'G_C02_no_contract_violation', 'G_C05_refines_spec'] +
+                           (['regenerated_encoder_is_model : forall v p, genL_encode v p = m_encode v p', 'G_C03_ctrl_roundtrip',
+                             'G_C04_data_roundtrip', 'G_C06_encode_refines_spec'] if 'regenerated_encoder_is_model' in text else []),
+               'meaning': 'the decoder and the encoder regenerated from the current source text, with every callee regenerated too, equal the '
+                          'Model decoder / encoder on every input; C01, C02, C05 and the round trips C03, C04 and the layout C06 are re-proved '
+                          'of the regenerated programs'}
         json.dump(res, open(cp, 'w'))
     elif any(x in out for x in transient) or out == 'timeout':
         res = {'status': 'not checked (coqc could not run)'}
